@@ -267,6 +267,7 @@ class FuncSpec:
         self.loops = {}
         self.params = {}            # path -> FuncSpec (kind param)
         self.calls = {}             # callee name -> FuncSpec: in-context (assumed) contract of an external callee
+        self.recvs = {}             # channel path -> FuncSpec: ASSUMED facts about every value received (justified by the senders' `send` contracts)
         self.sends = {}             # channel path -> FuncSpec (contract of a send on that channel)
         self.closes = {}            # channel path -> FuncSpec (contract of close(ch))
         self.ghost = []             # (name, sort)
@@ -397,7 +398,7 @@ def logical_lines(path, go_file):
 KEYWORDS = ('func', 'iface', 'assume', 'spec', 'lemma', 'axiom', 'const', 'arith', 'ghost', 'requires', 'ensures',
             'modifies', 'nonnil', 'loop', 'invariant', 'decreases', 'param', 'inline', 'assert-call', 'trusted',
             'args', 'results', 'report', 'using', 'flag', 'pure', 'import', 'assert-at', 'owns', 'fork',
-            'deterministic', 'guarded', 'send', 'closes', 'call', 'alias')
+            'deterministic', 'guarded', 'send', 'closes', 'call', 'alias', 'recv')
 
 
 def join_continuations(raw):
@@ -552,6 +553,13 @@ def parse_file(path, specs, pkgpath=None, go_file=True, allow_assume=False):
                 ps = FuncSpec(path_, 'param', src=where)
                 ps.in_context = True
                 cur_top.calls[path_] = ps
+                cur = ps
+                cur_loop = None
+                sub_indent = indent
+            elif kw == 'recv':
+                path_ = rest.rstrip(':').strip()
+                ps = FuncSpec('recv ' + path_, 'param', src=where)
+                cur_top.recvs[path_] = ps
                 cur = ps
                 cur_loop = None
                 sub_indent = indent
